@@ -18,7 +18,8 @@ LEVEL = "fault_enumeration"
 RULE = (
     "Hypothesis draws a valid definition (1..3 states, 1..2 controls, 1..2 calibrations, 1..2 sensors of 1..2 readings); "
     "the check first requires that ui.Model, python.compile, python.compile_ekf, cpp.compile and cpp.compile_ekf all "
-    "accept it (and that the C++ entry points write header and source). Then every single structural fault of 17 classes "
+    "accept it (and that the C++ entry points write header and source); a second search does only this acceptance check "
+    "over wider legal shapes (0..3 controls, 0..2 calibrations, 0..3 sensors, Symbol-keyed readings). Then every single structural fault of 17 classes "
     "is injected at EVERY applicable position of that definition (enumerated, not sampled): a symbol shared by two of "
     "state/control/calibration (3 pairs x each symbol); update map missing a state / with an extra key / with a key "
     "swapped for an undeclared or control symbol; calibration map missing / extra / swapped key; process noise missing / "
@@ -274,7 +275,10 @@ def case(spec, ctx):
             if spec["faults"]:
                 attempt(ctx, m, spec["faults"], wd)
             else:
-                check_valid(ctx, m, wd)
+                check_valid(ctx, m, wd, keep_symbol_keys=bool(spec.get("valid_wide")))
+                if spec.get("valid_wide"):
+                    ctx.event(f"valid_wide:controls={len(m['control'])},calibrations={len(m['calib'])},sensors={len(m['sensors'])}")
+                    ctx.nontrivial({"valid": m})
             return
         with ctx.watchdog(60, "fault-enumeration-timeout"):
             check_valid(ctx, m, wd)
@@ -309,8 +313,10 @@ def conflicting(f1, f2):
                         and (f1.get("sym") == f2.get("sym") or f1.get("other") == f2.get("sym") or f1.get("sym") == f2.get("other")))
 
 
-def check_valid(ctx, m, wd):
+def check_valid(ctx, m, wd, keep_symbol_keys=False):
     a = raw_args(m)
+    if keep_symbol_keys:
+        a["sensor_models"], a["sensor_noises"] = models.sensor_models(m, a["tab"]), models.sensor_noises(m)
     spec = {"model": m, "faults": []}
     try:
         model = build_ui(a)
@@ -333,5 +339,15 @@ def cases(draw):
     return {"model": m, "pairs": pairs}
 
 
+@st.composite
+def valid_wide_cases(draw):
+    """valid definitions of unusual-but-legal shapes: no control / no calibration / no sensors, list containers,
+    Symbol-keyed readings, LaTeX-free identifier names (the C++ entry points are exercised too)"""
+    m = draw(models.model_specs(names="ident", n_state=(1, 4), n_control=(0, 3), n_calib=(0, 2), n_sensors=(0, 3),
+                                n_readings=(1, 3), depth=1, sensor_depth=1, cse=False, innovation=("none", "k")))
+    return {"model": m, "faults": [], "valid_wide": True}
+
+
 def shard(ctx):
-    ctx.run_given(cases(), case)
+    ctx.run_given(cases(), case, share=0.7)
+    ctx.run_given(valid_wide_cases(), case, examples=3 * ctx.examples, label="valid-wide")
